@@ -9,7 +9,7 @@ CONSTANTS
   Amounts = {1, 3, 10, 25}
   Pairs = 0
   WdAmounts = {}
-  CfgIds = {1, 2, 3, 4}
+  CfgIds = {1, 3, 13}
   ScenIds = {1, 2}
   FixIds = {0}
   VaryPrices = FALSE
